@@ -164,7 +164,10 @@ def _try(an, st, cur, out):
     rec = _Recorder(an)
     body = run(rec, st.body, cur)
     # state at handler entry: any intermediate state of the body
-    hstate = _joinall(an, [cur] + rec.seen + [s for _, s in body.raises])
+    if getattr(an, 'handler_from_entry', False):
+        hstate = cur      # documented assumption of the analysis: exceptions precede the tracked effects
+    else:
+        hstate = _joinall(an, [cur] + rec.seen + [s for _, s in body.raises])
     fall_states = []
     pending = Out()
     bodyfall = body.fall
@@ -209,6 +212,7 @@ class _Recorder(Analysis):
     def __init__(self, an):
         self.an = an
         self.seen = []
+        self.handler_from_entry = getattr(an, 'handler_from_entry', False)
 
     def transfer(self, stmt, state):
         s = self.an.transfer(stmt, state)
